@@ -11,6 +11,8 @@ pub mod c10;
 pub mod c11;
 pub mod c12;
 pub mod c13;
+pub mod c14;
+pub mod c15;
 pub mod replay;
 
 use crate::report::Tier;
@@ -30,6 +32,8 @@ pub fn dispatch(prop: &str, tier: Tier) -> i32 {
         "C11" => c11::run(tier),
         "C12" => c12::run(tier),
         "C13" => c13::run(tier),
+        "C14" => c14::run(tier),
+        "C15" => c15::run(tier),
         _ => {
             println!("MACHINERY-ERROR: unknown property {}", prop);
             2
